@@ -41,6 +41,8 @@ ASSUMPTIONS = [
 
 ONE_CHAR = ['b', 'a', 'x', 'c', 'Z', 'q']
 FOLD_INT = [3, -2, 10, 0, 7, 21, 5, 100]
+# session dates / acquisition time stamps as fold names: large numbers that differ in the last digits
+FOLD_DATE = [20240311, 20240312, 20240105, 20240112, 20231230, 1700000060, 1700000000, 20240313]
 FOLD_STR_AMBIG = ['b10', 'a', 'b9', 'c', 'B', 'zz', 'a1', 'run']
 FOLD_STR_PLAIN = ['r3', 'r1', 'r7', 'r2', 'r9', 'r5', 'r4', 'r8']
 
@@ -159,8 +161,9 @@ def cv_case(draw, method, modes):
     noise_list = cfg.get('noise_form') == 'list'
     rows = []
     if mode == 'explicit':
-        fold_kind = draw(st.sampled_from(['int', 'str']))
-        pool = FOLD_INT if fold_kind == 'int' else (FOLD_STR_PLAIN if noise_list else FOLD_STR_AMBIG)
+        fold_kind = draw(st.sampled_from(['int', 'str', 'date']))
+        pool = FOLD_INT if fold_kind == 'int' else FOLD_DATE if fold_kind == 'date' else \
+            (FOLD_STR_PLAIN if noise_list else FOLD_STR_AMBIG)
         fi = draw(st.lists(st.integers(0, len(pool) - 1), min_size=n_fold, max_size=n_fold, unique=True))
         fnames = [pool[i] for i in fi]
         same_reps = draw(st.sampled_from([True, True, False]))
@@ -221,6 +224,15 @@ def _call(case, meas, conds, folds, noise, container, dtype, what):
         a = np.array(noise, dtype=float)
         nz = [m.copy() for m in a] if a.ndim == 3 else a
     sig = 'raises:%s:%s' % (method, 'explicit-folds' if folds is not None else 'default-folds')
+    # a deterministic half of the calc_rdm calls hand over a list of two datasets (the same data
+    # twice; one shared precision at most): one RDM per dataset, each the single-dataset value
+    as_list = case['api'] == 'calc_rdm' and (nz is None or isinstance(nz, np.ndarray)) \
+        and len(conds) % 2 == 0
+    if as_list:
+        ds_arg = [ds, Dataset(U.np_data(meas, dtype), obs_descriptors={k: gen.as_desc(list(v), container)
+                                                                        for k, v in od.items()},
+                              descriptors={'subj': 's2'})]
+        ds, ds_single = ds_arg, ds
     if method == 'crossnobis':
         if case['api'] == 'calc_rdm':
             r = lib(calc_rdm, ds, method='crossnobis', descriptor='cond', noise=nz,
@@ -237,6 +249,14 @@ def _call(case, meas, conds, folds, noise, container, dtype, what):
         else:
             r = lib(calc_rdm_poisson_cv, ds, 'cond', prior_lambda=lam, prior_weight=w,
                     cv_descriptor=cvd, on_error='violation', sig=sig)
+    if as_list:
+        ds = ds_single
+        require(r.n_rdm == 2, '%s: %d RDMs for a list of two datasets' % (what, r.n_rdm), 'list:n_rdm')
+        d = np.asarray(r.dissimilarities, dtype=float)
+        require(np.array_equal(d[0], d[1]), '%s: two datasets with the same data and folds in one '
+                'list give different RDMs (max diff %.3g)' % (what, core.maxdiff(d[0], d[1])),
+                'list:rdm-differs')
+        r = r[0]
     require(np.array_equal(before, ds.measurements), what + ': dataset measurements modified',
             'input-mutated')
     require(list(ds.obs_descriptors.keys()) == list(od.keys()),
